@@ -257,7 +257,9 @@ def cases(ctx):
                 reads = list(keys)
             op = rng.choice(OPS)
             if op == "transform":
-                op = "transform:" + rng.choice(MATRIX_CLASSES)
+                # (the tiny anisotropic class is a single-step case above: inside a long history it leaves a mesh of size
+                #  1e-5 for later unit-sized edits, slivers on which fresh and transported normals differ by rounding)
+                op = "transform:" + rng.choice([x for x in MATRIX_CLASSES if x != "aniso_small"])
             ctx.count("op:" + op.split(":")[0])
             steps.append({"reads": reads, "op": op, "seed": rng.randrange(10 ** 6)})
         yield {"kind": "history", "start": start, "steps": steps}
